@@ -1,12 +1,99 @@
 /- Drv/C14.lean — driver handler for property C14 (line protocol; core-only imports). -/
 import FunsorVerif.Core.Sexp
 import FunsorVerif.Core.XR
+import FunsorVerif.Model.C14
 namespace FV.Drv.C14
-open FV
+open FV FV.C14
 
-/-- `args` are the top-level S-expressions following the property tag on the request line. -/
+def asRats? (s : Sexp) : Option (List Rat) := do
+  let xs ← s.asList?
+  xs.mapM ratOfSexp?
+
+def ratsToSexp (l : List Rat) : Sexp := Sexp.list (l.map ratToSexp)
+
+def asInputs? (s : Sexp) : Option Inputs := do
+  let xs ← s.asList?
+  xs.mapM fun x =>
+    match x with
+    | Sexp.list [n, k] => do
+        let n ← n.asStr?
+        let k ← k.asNat?
+        pure (n, k)
+    | _ => none
+
+def strs (l : List String) : Sexp := Sexp.list (l.map Sexp.atom)
+
+/--
+  C14 delta-eval (p…) ld (v…)          Delta.eager_subs ground branch                → xr
+  C14 delta-sum n p w (f…)             Σ_{x<n} δ_p^w(x)·f x  (spec)  and  w·f p (model) → spec model
+  C14 delta-reduce n p (f…)            Σ_{x<n} δ_p^1(x)·f x  (spec)  and  f p (model)  → spec model
+  C14 encode (sizes…) (idx…)           row-major flat index
+  C14 decode (sizes…) m                the % / // loop
+  C14 pick (w…) r                      flat_sample for one row of linear weights
+  C14 sample ((name size)…) (data…) (sampled…) nParticles (r…)
+        → (batch names) (event names) (particle…), particle = (row…),
+          row = ((b…) (pt…) z massOfSample massOfOriginal)
+-/
 def handle (args : List Sexp) : String :=
   match args with
-  | _ => "err unimplemented"
+  | [Sexp.atom "delta-eval", p, ld, v] =>
+    match asRats? p, XR.ofSexp? ld, asRats? v with
+    | some p, some ld, some v => "ok " ++ toString (XR.toSexp (deltaEval p ld v))
+    | _, _, _ => "err bad-args"
+  | [Sexp.atom "delta-sum", n, p, w, f] =>
+    match n.asNat?, p.asNat?, ratOfSexp? w, asRats? f with
+    | some n, some p, some w, some f =>
+      if f.length ≠ n ∨ p ≥ n then "err bad-args"
+      else
+        match f[p]? with
+        | none => "err bad-args"
+        | some fp =>
+          let g : Nat → Rat := fun x => (f[x]?).getD 0   -- x < n = f.length on every use
+          "ok " ++ toString (ratToSexp (sumRange n fun x => deltaLin p w x * g x)) ++ " "
+            ++ toString (ratToSexp (deltaIntegrate w (fun _ => fp) p))
+    | _, _, _, _ => "err bad-args"
+  | [Sexp.atom "delta-reduce", n, p, f] =>
+    match n.asNat?, p.asNat?, asRats? f with
+    | some n, some p, some f =>
+      if f.length ≠ n ∨ p ≥ n then "err bad-args"
+      else
+        match f[p]? with
+        | none => "err bad-args"
+        | some fp =>
+          let g : Nat → Rat := fun x => (f[x]?).getD 0
+          "ok " ++ toString (ratToSexp (sumRange n fun x => deltaLin p 1 x * g x)) ++ " "
+            ++ toString (ratToSexp (deltaAddReduce (fun _ => fp) p))
+    | _, _, _ => "err bad-args"
+  | [Sexp.atom "encode", sizes, idx] =>
+    match sizes.asNats?, idx.asNats? with
+    | some s, some i => if s.length ≠ i.length then "err bad-args" else "ok " ++ toString (encode s i)
+    | _, _ => "err bad-args"
+  | [Sexp.atom "decode", sizes, m] =>
+    match sizes.asNats?, m.asNat? with
+    | some s, some m => "ok " ++ toString (Sexp.ofNats (decode s m))
+    | _, _ => "err bad-args"
+  | [Sexp.atom "pick", w, r] =>
+    match asRats? w, ratOfSexp? r with
+    | some w, some r => "ok " ++ toString (pickCell w r)
+    | _, _ => "err bad-args"
+  | [Sexp.atom "sample", inputs, data, sampled, np, rs] =>
+    match asInputs? inputs, asRats? data, sampled.asStrs?, np.asNat?, asRats? rs with
+    | some inputs, some data, some sampled, some np, some rs =>
+      match sampleTensor inputs data sampled np rs with
+      | none => "err malformed"
+      | some (bn, en, out) =>
+        let esizes := (inputs.filter fun (n, _) => sampled.contains n).map (·.2)
+        let bnames := (inputs.filter fun (n, _) => !sampled.contains n).map (·.1)
+        let enames := (inputs.filter fun (n, _) => sampled.contains n).map (·.1)
+        let rowS (r : RowOut) : Sexp :=
+          let massS := sumOver esizes (sampleVal r.point r.z)
+          let massO := sumOver esizes fun e =>
+            ((cellAt inputs data (bnames.zip r.batch ++ enames.zip e))).getD 0  -- in range by construction
+          Sexp.list [Sexp.ofNats r.batch, Sexp.ofNats r.point, ratToSexp r.z, ratToSexp massS,
+                     ratToSexp massO]
+        "ok " ++ toString (strs bn) ++ " " ++ toString (strs en) ++ " "
+          ++ toString (Sexp.list (out.map fun rows => Sexp.list (rows.map rowS)))
+    | _, _, _, _, _ => "err bad-args"
+  | _ => "err bad-request"
 
 end FV.Drv.C14
